@@ -491,6 +491,13 @@ class Interp:
         self.exec_block(st.body, frame)
 
     def st_Assert(self, st, frame):
+        if frame.module == 'ghost':
+            label = st.msg.value if isinstance(st.msg, ast.Constant) else f"line{st.lineno}"
+            saved = self.spec
+            c = self.eval(st.test, frame)
+            self.path.oblige(f"{self.fname}:assert:{label}", self.truth(c, st.test))
+            self.path.assume(self.truth(c, st.test))
+            return
         c = self.eval(st.test, frame)
         if not self.decide_truth(c, st.test):
             self.raise_('AssertionError', st)
